@@ -67,6 +67,9 @@ type Order struct {
 	// must only be skipped) before the BadLine-th result line of the first file.
 	ViaFiles bool
 	BadLine  int
+	// Early > 0 (direct mode): after Early results have been added the series are built once
+	// (and thrown away), then the remaining results are added to the same builder.
+	Early int
 }
 
 type Case struct {
@@ -354,7 +357,14 @@ func (c *Case) run(o Order) (out *gotOutput, err error, pan *libPanic) {
 		return nil, fmt.Errorf("NewBuilder: %v", err), nil
 	}
 	if !o.Text {
-		for _, i := range o.Perm {
+		for n, i := range o.Perm {
+			if o.Early > 0 && n == o.Early {
+				// an intermediate build must leave no trace in what is built at the end
+				func() {
+					defer func() { recover() }() // (a panic here shows up again at the final build or is a separate finding)
+					b.AllComparisonSeries(nil, c.Policy)
+				}()
+			}
 			b.Add(c.direct(c.Lines[i]))
 		}
 	} else {
@@ -1149,6 +1159,9 @@ func Gen(t *rapid.T) Case {
 			ord.Perm = rapid.Permutation(idx).Draw(t, "perm")
 		}
 		ord.Text = rapid.IntRange(0, 2).Draw(t, "text") == 0
+		if !ord.Text && len(idx) >= 2 && rapid.IntRange(0, 2).Draw(t, "early") == 0 {
+			ord.Early = rapid.IntRange(1, len(idx)-1).Draw(t, "earlyat")
+		}
 		if ord.Text {
 			ncut := rapid.IntRange(0, 3).Draw(t, "ncuts")
 			for k := 0; k < ncut; k++ {
